@@ -408,8 +408,33 @@ def basis_desc(basis):
 
 
 # ------------------------------------------------------------------------------------------------ run_case
+def witness_open_finding(ctx):
+    """Deterministic witness of the open finding recorded in known_findings.json (so that every run states whether it is
+    still present): a fixed walk of four adjacent swaps after which swap_site meets a cancelled bond operator."""
+    from renormalizer.model import Model, Op
+    from renormalizer.model.basis import BasisHalfSpin
+    from renormalizer.mps import Mpo
+    b = [BasisHalfSpin(i) for i in range(5)]
+    terms = [Op("Z Z", [0, 2]), Op("Z Z", [2, 3]), Op("Z", 1), Op("Z", 2)]
+    mpo = Mpo(Model(list(b), terms))
+    cur = list(b)
+    ctx.cls("witness:swap-walk-with-cancelled-bond-operator")
+    from rv import dense
+    for i in [1, 3, 2, 1]:
+        cur[i], cur[i + 1] = cur[i + 1], cur[i]
+        guarded(ctx, mpo.try_swap_site, Model(list(cur), terms), False, what="try_swap_site|witness")
+        ctx.count("oracle")
+        ctx.close(mpo.todense(), dense.op_dense(cur, terms), 1e-10, "witness|swapped-operator-differs", scale=4.0)
+
+
 def run_case(ctx):
     setup()
+    if ctx.idx == 0:
+        from rv.case import CaseAbort
+        try:
+            witness_open_finding(ctx)
+        except CaseAbort:
+            pass
     # rotate so that a worker chunk (indices congruent mod 16) contains every family: balanced chunks
     fam = FAMILIES[(ctx.idx + ctx.idx // len(FAMILIES)) % len(FAMILIES)]
     ctx.cls("family:" + fam)
